@@ -92,6 +92,10 @@ func VerifH_C15_FullAvailabilityStoresTheRequestedBlock() {
 	if already {
 		store.VerifPuts = append(store.VerifPuts, store.VerifPut{Height: 9, Roots: eh.DAH, EDS: new(rsmt2d.ExtendedDataSquare), Q4: true})
 	}
+	if nd.Bool("sameSquareAtAnotherHeight") {
+		// the same data (hence the same data hash) is already stored under height 5
+		store.VerifPuts = append(store.VerifPuts, store.VerifPut{Height: 5, Roots: &da.DataAvailabilityHeader{}, EDS: new(rsmt2d.ExtendedDataSquare), Q4: true})
+	}
 	g := &verifGetter{outcome: nd.Choice(7, "getter")}
 	fa := &ShareAvailability{getter: g, storageWindow: availability.StorageWindow, archival: archival}
 	window := int64(availability.StorageWindow)
